@@ -60,8 +60,11 @@ func c13Matrix(j *Job) {
 		for k := uint32(1); k <= 64; k++ {
 			variants = append(variants, correct+k*0x01010101, k)
 		}
-		for _, enabled := range []bool{false, true} {
-			a := &Association{recvZeroChecksum: enabled}
+		for opt := 0; opt < 4; opt++ {
+			// acceptance depends on what this endpoint advertised alone, whatever the peer
+			// declared (which only governs what this endpoint may send)
+			enabled := opt&1 != 0
+			a := &Association{recvZeroChecksum: enabled, sendZeroChecksum: opt&2 != 0}
 			for _, v := range variants {
 				raw := append([]byte(nil), good...)
 				binary.LittleEndian.PutUint32(raw[8:], v)
@@ -71,7 +74,7 @@ func c13Matrix(j *Job) {
 				want := v == correct || (v == 0 && enabled && !mandatory)
 				n++
 				if accepted != want {
-					j.failSeq("cksum.accept", "matrix/"+s.name, fmt.Sprintf("packet starting with %s, checksum field %#x (correct %#x), zero-checksum acceptance=%v: accepted=%v want %v", s.name, v, correct, enabled, accepted, want), nil)
+					j.failSeq("cksum.accept", "matrix/"+s.name, fmt.Sprintf("packet starting with %s, checksum field %#x (correct %#x), zero-checksum acceptance=%v (peer declared acceptance=%v): accepted=%v want %v", s.name, v, correct, enabled, opt&2 != 0, accepted, want), nil)
 				}
 			}
 		}
@@ -341,8 +344,78 @@ func c13StrayInitAckScenario(il, enabled, strayZC, realZC bool, strayInit ...boo
 	}
 }
 
+// c13RestartedPeerScenario: the client has the INIT-ACK (COOKIE-ECHOED) when an INIT of the
+// peer arrives - the peer has restarted with another zero-checksum setting - and the handshake
+// is completed by that peer's COOKIE-ECHO.  What the client sends from the INIT on follows
+// the INIT's declaration, not the earlier INIT-ACK's.
+func c13RestartedPeerScenario(il, firstZC, secondZC bool) *Scenario {
+	return &Scenario{
+		Name:    "zc-restarted-peer",
+		Horizon: 60 * time.Second,
+		Setup:   func(m *Sim) { m.W.delay = [2]time.Duration{time.Millisecond, time.Millisecond} },
+		Body: func(m *Sim) {
+			cfg := epCfg{NoInterleave: !il, MTU: 228, RTOMax: 4000, InitTSN: 91}
+			p := newScripted(m, cfg, il, firstZC)
+			p.dialT = m.Go("dial", func() { m.Dial(0, cfg) })
+			if out := p.settle(0); len(out) == 0 {
+				m.Failf("e2.base", "no INIT")
+				c03Teardown(m, p)
+				return
+			}
+			cookie := []byte("cookie-cookie-cookie-cookie-1234")
+			iack := chunkBytes(wINITACK, 0, wInitVal(p.tag, p.arwnd, 65535, 65535, p.tsn0, append([][]byte{wTLVBytes(7, cookie, true)}, p.initParams()...)...))
+			p.inject(p.pkt(iack)) // the client answers with COOKIE-ECHO and waits
+			// the peer restarts: new tag, new TSN, other declaration
+			p.ourZC = secondZC
+			p.tag, p.tsn0 = p.tag+1000, p.tsn0+5000
+			p.tsn = p.tsn0
+			evInit := len(m.W.events)
+			w := wNewPacket(5000, 5000, 0)
+			w.rawChunk(chunkBytes(wINIT, 0, wInitVal(p.tag, p.arwnd, 65535, 65535, p.tsn0, p.initParams()...)))
+			p.cookie = nil
+			if out := p.inject(w.bytes(true)); len(out) == 0 || p.cookie == nil {
+				m.Failf("e2.base", "the INIT of the restarted peer was not answered with an INIT-ACK")
+				c03Teardown(m, p)
+				return
+			}
+			p.inject(p.pkt(chunkBytes(wCOOKIEECHO, 0, p.cookie)))
+			m.S.Join(p.dialT)
+			p.a = m.As[0]
+			if p.a == nil {
+				m.Failf("e2.base", "handshake did not complete: %v", m.Err[0])
+				c03Teardown(m, p)
+				return
+			}
+			p.inject(p.pkt(chunkBytes(wHEARTBEAT, 0, wTLVBytes(1, []byte("12345678"), true))))
+			s, _ := p.a.OpenStream(2, PayloadTypeWebRTCBinary)
+			s.WriteSCTP(payload(2, 0, 300), PayloadTypeWebRTCBinary)
+			p.settle(0)
+			for i, ev := range m.W.events {
+				if i < evInit || ev.Kind != "send" || ev.From != 0 || ev.Pkt.dec == nil {
+					continue
+				}
+				if d := ev.Pkt.dec; d.CksumZero && !secondZC {
+					m.Failf("cksum.emit", "endpoint emitted a zero checksum (%s) towards a peer whose INIT does not declare acceptance (the INIT-ACK of its earlier incarnation did)", d.Summary())
+				}
+			}
+			md, _ := p.a.Metadata()
+			if md.ZeroChecksumSendingEnabled != secondZC {
+				m.Failf("cksum.negotiation", "INIT-ACK zc=%v, then INIT zc=%v: ZeroChecksumSendingEnabled=%v", firstZC, secondZC, md.ZeroChecksumSendingEnabled)
+			}
+			m.Observe("zc=%v", md.ZeroChecksumSendingEnabled)
+			c03Teardown(m, p)
+		},
+		Final: func(m *Sim, x *Exec) { generalVerdicts(m, x, false) },
+	}
+}
+
 func propC13(j *Job) {
 	twoInitCases(j, "C13")
+	for _, il := range []bool{false, true} {
+		for _, zz := range [][2]bool{{true, false}, {false, true}} {
+			j.Explore(fmt.Sprintf("restarted-peer/il%v/first%v/second%v", il, zz[0], zz[1]), c13RestartedPeerScenario(il, zz[0], zz[1]), Budget{}, nil)
+		}
+	}
 	for _, il := range []bool{false, true} {
 		for _, en := range []bool{false, true} {
 			for _, zz := range [][2]bool{{true, false}, {false, true}, {true, true}} {
